@@ -265,7 +265,10 @@ impl<'a, T: AsRef<str>> Tokenizer<'a, T> {
         }
 
         if let Some(pos) = latest_pos {
-            if let Ok(number) = digits.parse::<f64>() {
+            // A numeral with hundreds of digits parses to infinity, which we
+            // can't list as a numeral again ("inf" reads back as a variable),
+            // so treat it like Applesoft's overflow: it's not a valid number.
+            if let Some(number) = digits.parse::<f64>().ok().filter(|n| n.is_finite()) {
                 self.index += pos;
                 Some(Ok(Token::NumericLiteral(number)))
             } else {
